@@ -73,8 +73,16 @@ class Gen:
     def lognormal(self, a, b):
         return self._draw('lognormal', a, b)
 
+    discrete_world = None
+
     def binomial(self, n, p):
-        return self._draw('binomial', n, p)
+        d = self._draw('binomial', n, p)
+        w = Gen.discrete_world
+        if w is not None and getattr(w, 'discrete', False):
+            # discrete-inputs world: the draw is a solver-chosen member of {0, 1} (a fork), rendered as that number
+            w.n_discrete = getattr(w, 'n_discrete', 0) + 1
+            return 1 if bool(core.SymBool(z3.Bool(f'binomial_draw[{w.n_discrete - 1}]_is_1'))) else 0
+        return d
 
     seed_pairs = []      # (seed term, state constant) of explicit symbolic seeds: equal seeds <=> equal streams
 
@@ -183,6 +191,8 @@ class MCWorld:
         self.unlinked = []
         self.sim_inputs = []           # what the simulation was given (text of the temp input file)
         self.value_tokens = {}
+        self.discrete = False
+        Gen.discrete_world = self
 
     # --- stubs ------------------------------------------------------------------------------------------------
     def open(self, path, mode='r', *a, **k):
@@ -204,6 +214,11 @@ class MCWorld:
         for i, o in enumerate(self.outputs):
             if self.found[i]:
                 tok = f'⟦value{len(self.sim_inputs) - 1}.{i}⟧'
+                if self.discrete:
+                    # a deterministic simulator: the figure is a function of the input it was given
+                    import zlib
+                    body = '\n'.join(ln for ln in text.splitlines() if not ln.lstrip().startswith('#'))
+                    tok = f'⟦value-of-input-{zlib.crc32(body.encode()):08x}.{i}⟧'
                 self.value_tokens[tok] = (len(self.sim_inputs) - 1, i)
                 lines.append(f'      {o}:      {tok} unit\n')
         self.fs[out] = ''.join(lines)
